@@ -30,7 +30,9 @@ Frame ==
       n == IF Mode = "sig" THEN st.n ELSE 3
       pl == [i \in 1..n |-> (i * 29 + Seed) % 256]
       ts == IF Mode = "sig" THEN [i \in 1..6 |-> (i * 41 + st.n + Seed) % 256] ELSE WinAlphabet[st.i]
-      f0 == Mk(2, 1, 0, (7 + n) % 256, 1 + st.k, 190, 30000 + n, pl, (n * 257 + 4660) % 65536, 17 * st.k, ts, Z6)
+      \* the window is one per reader, whatever link id a frame carries: the alphabet alternates between two link ids
+      link == IF Mode = "win" /\ st.i % 2 = 0 THEN 203 ELSE 17 * st.k
+      f0 == Mk(2, 1, 0, (7 + n) % 256, 1 + st.k, 190, 30000 + n, pl, (n * 257 + 4660) % 65536, link, ts, Z6)
       f == [f0 EXCEPT !.sig = Sign(key, f0)]
   IN [key |-> key, f |-> f, bytes |-> Marshal(f), i |-> IF Mode = "sig" THEN 0 ELSE st.i]
 
